@@ -57,4 +57,21 @@ EncVariant(xs, variant) ==
               ELSE Sp(i) \o <<D(xs[i] \div 16, i)>> \o Sp(i + 1) \o <<D(xs[i] % 16, i + 1)>> \o E(i + 1)
   IN E(1)
 Variants == {"lower", "upper", "mixed", "spaced", "odd"}
+
+(* line wrapped encodings: the digits (case by position, optionally an odd    *)
+(* final digit) with the white space sequence ws inserted after every width   *)
+(* characters -- at an odd width the white space falls BETWEEN the two digits *)
+(* of a byte at every second line, and the low digit is directly followed by  *)
+(* the next byte's digits.                                                    *)
+EncWrapped(xs, width, ws, mixed, odd) ==
+  LET D(v, i) == IF mixed /\ i % 3 = 0 THEN Upper(v) ELSE Lower(v)
+      dropLast == odd /\ Len(xs) > 0 /\ xs[Len(xs)] % 16 = 0
+      nd == 2 * Len(xs) - (IF dropLast THEN 1 ELSE 0)
+      Digit(j) == LET x == xs[(j + 1) \div 2] IN IF j % 2 = 1 THEN D(x \div 16, j) ELSE D(x % 16, j)
+      RECURSIVE E(_)
+      E(j) == IF j > nd THEN <<EOD>>
+              ELSE <<Digit(j)>> \o (IF j % width = 0 /\ j < nd THEN ws ELSE <<>>) \o E(j + 1)
+  IN E(1)
+WrapWidths == {1, 2, 3, 63, 64, 75, 255}
+WrapSpaces == {<<32>>, <<10>>, <<13, 10>>, <<9>>, <<12>>, <<0>>}
 =============================================================================
